@@ -15,6 +15,22 @@ import OwlModel.Props.C05
 namespace Owl.Props.C14
 open Owl Owl.Impl Owl.Lemmas Owl.Props Owl.Props.C13
 
+/-- the filters are nested: whatever passes `force` passes `strict`, and whatever passes `strict` passes `relaxed` -/
+theorem passes_mono : ∀ (o : Outcome),
+    (o.passes .force = true → o.passes .strict = true) ∧ (o.passes .strict = true → o.passes .relaxed = true) := by
+  intro o
+  cases o with
+  | win c r => cases c <;> cases r <;> decide
+  | draw r => cases r <;> decide
+
+/-- `is_force` holds for checkmate and stalemate only, and is exactly "passes the `force` filter" -/
+theorem is_force_exact : ∀ (o : Outcome),
+    (o.isForce = true ↔ (∃ c, o = .win c .checkmate) ∨ o = .draw .stalemate) ∧ o.passes .force = o.isForce := by
+  intro o
+  cases o with
+  | win c r => cases c <;> cases r <;> simp [Outcome.isForce, Outcome.passes]
+  | draw r => cases r <;> simp [Outcome.isForce, Outcome.passes]
+
 /-- C14: forced outcomes pass every filter, mandatory draws the strict and relaxed ones, claimable draws only the
 relaxed one; nothing else passes any filter (the other reasons are never produced by the calculation) -/
 theorem passes_table : ∀ (o : Outcome) (f : OutcomeFilter),
